@@ -60,6 +60,8 @@ RunClauses(B, A, spawns, head, dirty, crashed) ==
    \cup V(\A s \in sp : s[4] = 1, "DirEmptyAtStart")
    \cup V(\A s, t \in sp : s # t => s[2] # t[2], "IdUnique")
    \cup V(RecordedImmutable(B, A) /\ RowsKept(B, A), "RecordedImmutable")
+   (* a 6th field (conformance side only): the directory of this version changed after its row had appeared in the index *)
+   \cup V(\A s \in sp : Len(s) < 6 \/ s[6] = 0, "NoWriteAfterRecord")
    \cup V(\A r \in A.rows \ B.rows : \E s \in ok : Key(s) = Key(r), "RowsOnlyForExit0")
    \cup V(crashed \/ \A s \in ok : Key(s) \in RowKeys(A), "SuccessRecorded")
    \cup V(\A r \in A.rows \ B.rows : r[3] = head /\ r[4] = dirty, "RowCarriesHeadAndDirty")
